@@ -60,4 +60,16 @@ PROPS = {
                         "behaviour under disk errors is not stated by the property: under faults only crash-freedom, lock release and absence of damage to other data are asserted; swallowed errors are counted as observations",
                         "testing/synctest, instrumenter (sync -> simulated sync), porcupine v1.3.0"],
     },
+    "C07": {
+        "engine": "owsim", "level": "exploration", "race": True,
+        "quick": {"runs": 1200, "race_runs": 200, "budget_s": 150},
+        "thorough": {"runs": 200000, "race_runs": 30000, "budget_s": 1500},
+        "rule": "one run = one seeded model-graph file (1-4 model types, 1-5 generations, 0-4 nodes per model and generation incl. empty batches, links with fan-in and fan-out, models with and without stored inputs, 1-12 timesteps) and command line (-overwrite on an existing output, -outputs-for/-no-outputs-for/-inputs-for/-no-inputs-for, separate parameter/state/timeseries/final-state files, no output file) executed by the real ow-sim under the seeded scheduler with seeded disk latencies (0, 1 ms, 100 ms, 2 s per call on the fake clock), compared dataset by dataset and bit for bit with a sequential reference executor, plus exactly-once/before-return/no-reload accounting from the disk call log, liveness within the step and simulated-time caps and the lock monitor; non-trivial = at least one node and at least one scheduling decision with 2 or more runnable tasks",
+        "real": ["cmd/ow-sim (run_simulation, runGeneration, writer goroutines, modelReference; external writer mode not simulated)", "io", "data", "sim", "models/*", "conv", "util"],
+        "stub": ["HDF5 C library and gonum binding (fakehdf5)", "file namespace (os.Stat/os.Remove)", "os.Exit (recorded as an event)"],
+        "assumptions": ["fake HDF5 semantics (fakehdf5/hdf5.go)", "destination models of links are taken from a list of models that tolerate any non-negative input",
+                        "the default for writing final inputs is implementation-defined: asserted only where -inputs-for/-no-inputs-for speak, but whatever is written must equal the reference",
+                        "disk errors are not injected here (the property is silent; ow-sim exits); only delays", "instrumenter, testing/synctest, Go race detector for the -race runs"],
+        "not_evaluated": ["external writer processes (-outputs m=file, -writer)"],
+    },
 }
